@@ -346,3 +346,71 @@ def c04i(ctx):
                        'at the border are cropped at the wrong offset' % (k, detail))
     if seen != {0, 1, 2, 3}:
         ctx.bad('MetaGrid._buffered_bbox:all-edges', 'buffers are adjusted for edges %s only' % sorted(seen), fn)
+
+
+@rule('C04.j', floor=2)
+def c04j(ctx):
+    """a tile cut out of a larger picture sits where it sits in the picture: where the transformer only crops (same resolution), the
+    crop offset is the nearest pixel, int(round(offset)) -- the offset is computed in floating point and comes out as 175.9999999 for
+    176; truncated, every tile cut from a meta tile is shifted by one pixel against the same tile fetched alone"""
+    fn = ctx.fn('mapproxy/image/transform.py:ImageTransformer._transform_simple')
+    crops = [x for x in fn.walk() if isinstance(x, ast.Call) and isinstance(x.func, ast.Attribute) and x.func.attr == 'crop' and x.args]
+    if not crops:
+        raise Undecided('_transform_simple: crop call not found')
+    for k, x in enumerate(crops):
+        box = x.args[0]
+        elts = box.elts if isinstance(box, ast.Tuple) else []
+        ok = len(elts) == 4
+        offs = []
+        for e in elts[:2]:
+            c = fn.ctext(e, at=fn.cfg.node_for(x))
+            offs.append(c)
+            ok = ok and c.startswith('int(round(') and c.endswith('))')
+        # the far corner is the near corner plus the size of the result
+        for e, o in zip(elts[2:], elts[:2]):
+            ok = ok and isinstance(e, ast.BinOp) and isinstance(e.op, ast.Add) and unparse(e.left) == unparse(o)
+        ctx.check(ok, 'ImageTransformer._transform_simple:crop#%d:nearest-pixel' % (k + 1), 'the crop offset is int(round(..)) and the box has the size of the result', fn, x,
+                  fail='the crop offset of _transform_simple is %s: not rounded to the nearest pixel' % offs)
+    ctx.check(True, 'ImageTransformer._transform_simple:crop-sites', '%d crop site(s)' % len(crops), fn)
+
+
+@rule('C04.k', floor=4)
+def c04k(ctx):
+    """two creators working at the same time do not write into each other's request: the request template of an upstream client is
+    shared by all threads and is never written -- every function that fills in bbox / size / srs / format works on a copy
+    (`self.request_template.copy()`).  No store goes to `self.request_template...` and none to a local that names the template itself"""
+    n = 0
+    for rel in ('mapproxy/client/wms.py', 'mapproxy/client/arcgis.py'):
+        for fn in sorted(ctx.repo.fns_in(rel + ':'), key=lambda f: f.qn):
+            if fn.name == '__init__':
+                continue
+            defs = Defs(fn.node)
+            bad = []
+            uses = False
+            for x in fn.walk():
+                if isinstance(x, ast.Attribute) and unparse(x) == 'self.request_template':
+                    uses = True
+                tgt = None
+                if isinstance(x, (ast.Attribute, ast.Subscript)) and isinstance(x.ctx, (ast.Store, ast.Del)):
+                    tgt = x
+                elif isinstance(x, ast.Call) and isinstance(x.func, ast.Attribute) and x.func.attr in ('update', 'set', 'setdefault', 'pop', 'clear', 'append', 'extend'):
+                    tgt = x.func.value
+                if tgt is None:
+                    continue
+                root = tgt
+                while isinstance(root, (ast.Attribute, ast.Subscript)):
+                    if isinstance(root, ast.Attribute) and unparse(root) == 'self.request_template':
+                        bad.append(unparse(tgt))
+                        break
+                    root = root.value
+                if isinstance(root, ast.Name) and root.id != 'self':
+                    if any(isinstance(v, ast.Attribute) and unparse(v) == 'self.request_template' for v, sel in defs.of(root.id)):
+                        bad.append(unparse(tgt))
+            if not uses:
+                continue
+            n += 1
+            ctx.check(not bad, '%s:template-not-written' % fn.short, 'the shared request template is only read / copied', fn,
+                      fail='%s writes to the request template shared by all threads (%s): concurrent tile creators overwrite each other\'s '
+                           'bbox / size before the URL is built' % (fn.short, ', '.join(sorted(set(bad)))[:120]))
+    if n < 4:
+        raise Undecided('only %d functions using a request template found' % n)
